@@ -287,3 +287,67 @@ func Harness_C20_reload_truncated() {
 	}
 	v.Reach("C20.reload.end")
 }
+
+// Two user groups competing for one metric: metric "ax" and group 10 named "a" exist from the start
+// (replica 1 has seen both); 3 edits rename either
+// group (10 or 20) to a name from {"a", "b", "c"} (unique among groups, so a name freed by one group can
+// be taken by the other); replica 1 syncs after an arbitrary subset of the edits, replica 2 only at the
+// end. On both the metric's group is the enabled group whose name is the longest prefix of "ax" (the
+// group currently called "a"), else the default group; both replicas agree.
+func Harness_C20_two_groups_3steps() {
+	src := MakeJournalFast(nil, 0, false, nil)
+	r1, r2 := c20NewReplica(), c20NewReplica()
+	var scratch []byte
+	metric := &c20Entity{typ: format.MetricEvent, id: 1, name: "ax", version: 1}
+	scratch = src.addEventLocked(scratch, c20Event(metric))
+	src.finishUpdateLocked()
+	r1.sync(src)
+	groups := []*c20Entity{{typ: format.MetricsGroupEvent, id: 10}, {typ: format.MetricsGroupEvent, id: 20}}
+	// group 10 starts as "a" and replica 1 has seen it
+	groups[0].name, groups[0].version = "a", 2
+	scratch = src.addEventLocked(scratch, c20Event(groups[0]))
+	src.finishUpdateLocked()
+	r1.sync(src)
+	for t := 3; t <= 5; t++ {
+		g := groups[v.Choice(2)]
+		name := []string{"a", "b", "c"}[v.Choice(3)]
+		for _, o := range groups {
+			if o != g && o.version != 0 {
+				v.Assume(o.name != name)
+			}
+		}
+		g.name, g.version = name, int64(t)
+		scratch = src.addEventLocked(scratch, c20Event(g))
+		src.finishUpdateLocked()
+		if t < 5 && v.NondetBool() {
+			r1.sync(src)
+		}
+	}
+	r1.sync(src)
+	r2.sync(src)
+	want := int32(format.BuiltinGroupIDDefault)
+	for _, g := range groups {
+		if g.version != 0 && g.name == "a" {
+			want = int32(g.id)
+		}
+	}
+	for ri, r := range []*c20Replica{r1, r2} {
+		tag := []string{"r1", "r2"}[ri]
+		m := r.ms.GetMetaMetric(1)
+		v.Assert("C20.groups."+tag+".metric_present", m != nil)
+		if m != nil {
+			v.Assert("C20.groups."+tag+".metric_in_the_group_holding_its_prefix", m.GroupID == want)
+		}
+		for _, g := range groups {
+			if g.version != 0 {
+				got := r.ms.GetGroup(int32(g.id))
+				v.Assert("C20.groups."+tag+".group_latest_name", got != nil && got.Name == g.name)
+			}
+		}
+	}
+	v.Assert("C20.groups.state_hash_r1_eq_r2", r1.j.stateHash == r2.j.stateHash)
+	if want != int32(format.BuiltinGroupIDDefault) {
+		v.Reach("C20.groups.assigned")
+	}
+	v.Reach("C20.groups.end")
+}
